@@ -324,6 +324,8 @@ def documents(thorough):
     # a declared encoding other than the one the bytes are in
     for enc in ("ISO-8859-1", "utf-16", "us-ascii"):
         yield "encoding-declared:%s" % enc, T(("encoding", enc), ("root", elem("r", children=P(L("é")))))
+    yield "encoding-empty", T(("encoding", ""), ("root", elem("r")))
+    yield "encoding-blank", T(("encoding", " "), ("root", elem("r")))
     yield "encoding-value-with-quote", T(("encoding", 'utf-8" standalone="yes'), ("root", elem("r")))
     yield "version-value-with-quote", T(("version", '1.0" encoding="x'), ("root", elem("r")))
     # a prefix bound, re-bound and bound back three levels deep; a default namespace undeclared with ""
